@@ -47,15 +47,15 @@ type c07Case struct {
 }
 
 type c07Obs struct {
-	Panicked     string  `json:"panicked,omitempty"`
-	CloseErr     string  `json:"close_err,omitempty"`
-	Returned     bool    `json:"returned"`
-	CloseMS      float64 `json:"close_ms"`
-	Closed       bool    `json:"transport_closed"`
-	Goroutines0  int     `json:"goroutines_before"`
-	Goroutines1  int     `json:"goroutines_after"`
-	Second       string  `json:"second_close,omitempty"`
-	SecondReturn bool    `json:"second_returned"`
+	Panicked     string   `json:"panicked,omitempty"`
+	CloseErr     string   `json:"close_err,omitempty"`
+	Returned     bool     `json:"returned"`
+	CloseMS      float64  `json:"close_ms"`
+	Closed       bool     `json:"transport_closed"`
+	Goroutines0  int      `json:"goroutines_before"`
+	Goroutines1  int      `json:"goroutines_after"`
+	Second       string   `json:"second_close,omitempty"`
+	SecondReturn bool     `json:"second_returned"`
 	Trace        []string `json:"trace,omitempty"`
 	Infeasible   bool     `json:"infeasible,omitempty"`
 }
